@@ -31,25 +31,38 @@ namespace Pistache::Http
     {
         using time_point = FullDate::time_point;
 
-        bool parse_RFC_1123(const std::string& s, time_point& tp)
+        // The dates are parsed into calendar fields first and only converted to the nanosecond
+        // system clock when the year is one the clock can represent: a far-away year is an invalid
+        // date instead of an integer overflow.
+        bool parse_fields(const std::string& s, const char* format, time_point& tp)
         {
             std::istringstream in { s };
-            in >> date::parse("%a, %d %b %Y %T %Z", tp);
-            return !in.fail();
+            date::fields<time_point::duration> fds {};
+            date::from_stream(in, format, fds);
+            if (in.fail() || !fds.ymd.ok() || !fds.has_tod)
+                return false;
+
+            const int year = static_cast<int>(fds.ymd.year());
+            if (year < 1678 || year > 2261)
+                return false;
+
+            tp = date::sys_days(fds.ymd) + fds.tod.to_duration();
+            return true;
+        }
+
+        bool parse_RFC_1123(const std::string& s, time_point& tp)
+        {
+            return parse_fields(s, "%a, %d %b %Y %T %Z", tp);
         }
 
         bool parse_RFC_850(const std::string& s, time_point& tp)
         {
-            std::istringstream in { s };
-            in >> date::parse("%A, %d-%b-%y %T %Z", tp);
-            return !in.fail();
+            return parse_fields(s, "%A, %d-%b-%y %T %Z", tp);
         }
 
         bool parse_asctime(const std::string& s, time_point& tp)
         {
-            std::istringstream in { s };
-            in >> date::parse("%a %b %d %T %Y", tp);
-            return !in.fail();
+            return parse_fields(s, "%a %b %d %T %Y", tp);
         }
 
     } // anonymous namespace
